@@ -213,6 +213,26 @@ class Translator:
             return z3.Loop(inner, lo, hi)
         raise Unsupported("node %r" % (op,))
 
+    def unbounded_repeats(self):
+        """[(path description, z3 regex of the repeated body)] for every `*`, `+`, `{n,}` in the pattern, nested ones included."""
+        found = []
+
+        def walk(sub, where):
+            for i, (op, av) in enumerate(sub):
+                here = "%s/%d" % (where, i)
+                if op is sre_c.SUBPATTERN:
+                    walk(av[3], here + "()")
+                elif op is sre_c.BRANCH:
+                    for k, p in enumerate(av[1]):
+                        walk(p, here + "|%d" % k)
+                elif op in (sre_c.MAX_REPEAT, sre_c.MIN_REPEAT):
+                    lo, hi, p = av
+                    if hi is sre_c.MAXREPEAT or hi == sre_c.MAXREPEAT:
+                        found.append((here + "{%d,}" % lo, self.seq(p)))
+                    walk(p, here + "{}")
+        walk(self.tree, "")
+        return found
+
     def language(self):
         """Strings s with pattern.fullmatch(s)."""
         return self.seq(self.tree, top=True)
